@@ -151,6 +151,8 @@ class ModbusSim(PeerBase):
             self.regs[reg] = req["value"] & 0xFFFF
             self.writes.append((round(self.loop.time(), 9), reg, [req["value"] & 0xFFFF]))
             self.on_write(reg, 1)
+            if reg in getattr(self, "ack_exc", {}):      # firmware that APPLIES the write and answers with an exception frame (5 ACKNOWLEDGE:
+                return exc(req, self.ack_exc[reg])        # "accepted, processing takes long"); only the first transmission is answered so
             return ok(req)
         cnt = req["count"]
         if self.is_refused(reg, cnt):
@@ -160,6 +162,8 @@ class ModbusSim(PeerBase):
             self.regs[reg + i] = v
         self.writes.append((round(self.loop.time(), 9), reg, vals))
         self.on_write(reg, cnt)
+        if reg in getattr(self, "ack_exc", {}):
+            return exc(req, self.ack_exc[reg])
         return ok(req)
 
     def on_write(self, reg, cnt):
